@@ -16,6 +16,9 @@ def judge(ck, c, r, I, M, S, sup):
     if 'twin' in c:
         t = ck.env['impl'][c['twin']]
         if t is not None and 'out' in t and t['out'] != 9 and (t['out'] == 0) != (I == 0):
+            if c['stream'] == 'reorder':
+                return (f'the verdict depends on the iteration order of a nested dict / set: {CC.OUT_NAMES.get(t["out"])} for '
+                        f'{ck.env["cases"][c["twin"]]["val"]} but {CC.OUT_NAMES.get(I)} for the reordered {c["val"]}')
             return (f'the verdict depends on the spelling: {CC.OUT_NAMES.get(t["out"])} for {ck.env["cases"][c["twin"]]["ann"]} '
                     f'but {CC.OUT_NAMES.get(I)} for the equivalent {c["ann"]}')
     return None
@@ -28,4 +31,4 @@ def run(tier, seed, replay=None):
         if replay is not None and replay.get('case', {}).get('obs') == 'named':
             cases.clear()
     return CC.run('C02', tier, seed, replay, PROPS, judge, extra_streams=extra, rule_extra=' (every annotation also in an equivalent spelling: typing<->builtin alias, '
-                  'Union/Optional/|, permuted members)')
+                  'Union/Optional/|, permuted members; every value with a dict or set inside also with all of them built in the opposite order)')
